@@ -155,6 +155,30 @@ func corpus(r *Rng) []Case {
 		e.fnReturn(b, wAnswer{v: wValue{kind: "nil"}})
 		e.fnReturn(a, wAnswer{v: wValue{kind: "bool", b: false}})
 	}))
+	// W11: both findings in ONE schedule (auth): a ':' key collision among the group questions
+	// (callers 1 and 5) and a merged AValidate follower left with a stale record (callers 2 and 6).
+	// Found by the thorough tier (seed 1, case 9155) as an attribution gap of the judge.
+	out = append(out, authCase(r, 0, 0, func(e *engine, mk func(int, *question) *caller) {
+		s2, s6 := base, base
+		c1 := mk(1, &question{endpoint: "AGroupMembership", email: "a", groups: []string{"b:c"}})
+		c2 := mk(2, &question{endpoint: "AValidate", s: &s2})
+		c3 := mk(3, &question{endpoint: "ARefreshAccessToken", token: "rt1"})
+		c4 := mk(4, &question{endpoint: "AGroupMembership", email: "b@x.io", groups: []string{"g1"}})
+		c5 := mk(5, &question{endpoint: "AGroupMembership", email: "a:b", groups: []string{"c"}})
+		c6 := mk(6, &question{endpoint: "AValidate", s: &s6})
+		e.enter(c1)
+		e.enter(c2)
+		e.enter(c3)
+		e.enter(c4)
+		e.enter(c5)
+		e.enter(c6)
+		e.fnReturn(c3, wAnswer{v: wValue{kind: "token", tok: "at7", expires: 3600}})
+		e.fnReturn(c2, wAnswer{v: wValue{kind: "bool", b: true}, u: validUpd})
+		e.wake(c6)
+		e.fnReturn(c1, wAnswer{v: wValue{kind: "groups", groups: []string{"b:c"}}})
+		e.wake(c5)
+		e.fnReturn(c4, wAnswer{v: wValue{kind: "groups", groups: []string{"g1"}}})
+	}))
 	return out
 }
 
